@@ -221,13 +221,28 @@ theorem Coh.setLoc {t : Tree} {e : Env} {c : Cache} (h : Coh t e c) {i : Nat} {r
 
 theorem combine_true_false (l : Res) : combine .true_ .false_ l = l := rfl
 
+/-- `Deps t i k`: the outcome of block `i` may depend on field `k`: the field it tests, those
+    its enclosing blocks test, and those the earlier branches of its and their chains test -/
+inductive Deps (t : Tree) : Nat → Comp → Prop
+  | self (i : Nat) : Deps t i (t.node i).comp
+  | parent {i : Nat} {k : Comp} : (t.node i).parent ≠ 0 → Deps t (t.node i).parent k → Deps t i k
+  | prev {i q : Nat} {k : Comp} : (t.node i).prev = some q → Deps t q k → Deps t i k
+
+/-- every field block `i` may depend on is available (bits of r->conditional_is_valid) -/
+def DepsValid (t : Tree) (valid : Comp → Bool) (i : Nat) : Prop := ∀ k, Deps t i k → valid k = true
+
+/-- every field tested anywhere in the configuration is available (the mask
+    http_response_comeback() / http_request_headers_fin() establish) -/
+def TreeValid (t : Tree) (valid : Comp → Bool) : Prop :=
+  ∀ i, 1 ≤ i → i < t.length → valid (t.node i).comp = true
+
 /-- postcondition of one `check` call -/
 def CheckPost (t : Tree) (e : Env) (valid : Comp → Bool) (i : Nat) (c : Cache)
     (out : Res × Cache) : Prop :=
   Coh t e out.2 ∧
   (out.1 ≠ .unset → out.1 = spec t e i ∧ colGet out.2.res i = out.1) ∧
   (∀ j, colGet c.res j ≠ .unset → colGet out.2.res j = colGet c.res j) ∧
-  ((∀ k, valid k = true) → out.1 ≠ .unset)
+  (DepsValid t valid i → out.1 ≠ .unset)
 
 theorem localStep_post {t : Tree} (hwf : WF t) {e : Env} (valid : Comp → Bool) {c : Cache} {i : Nat}
     (h : Coh t e c) (hi : i < t.length)
@@ -238,7 +253,7 @@ theorem localStep_post {t : Tree} (hwf : WF t) {e : Env} (valid : Comp → Bool)
       (localStep valid (t.node i) e i c).1 = spec t e i ∧
       colGet (localStep valid (t.node i) e i c).2.res i = (localStep valid (t.node i) e i c).1) ∧
     (∀ j, j ≠ i → colGet (localStep valid (t.node i) e i c).2.res j = colGet c.res j) ∧
-    ((∀ k, valid k = true) → (localStep valid (t.node i) e i c).1 ≠ .unset) := by
+    (valid (t.node i).comp = true → (localStep valid (t.node i) e i c).1 ≠ .unset) := by
   unfold localStep
   by_cases hv : valid (t.node i).comp = true
   · simp only [hv, Bool.not_true, Bool.false_eq_true, if_false]
@@ -273,7 +288,7 @@ theorem localStep_post {t : Tree} (hwf : WF t) {e : Env} (valid : Comp → Bool)
     refine ⟨h, ?_, ?_, ?_⟩
     · intro hne; exact absurd rfl hne
     · intro j _; trivial
-    · intro hall; exact absurd (hall _) hv
+    · intro hall; simp at hall
 
 theorem combine_skip_left {pr : Res} (qr l : Res) (h : pr = .skip ∨ pr = .false_) :
     combine pr qr l = .skip := by
@@ -289,7 +304,7 @@ theorem afterPrev_post {t : Tree} (hwf : WF t) {e : Env} (valid : Comp → Bool)
     (hQs : Q.1 ≠ .unset → spec t e i = combine .true_ Q.1 (Res.ofBool (evalLocal (t.node i) e)))
     (hmono : ∀ j, colGet c.res j ≠ .unset → colGet Q.2.res j = colGet c.res j)
     (hQpar : (t.node i).parent ≠ 0 → colGet Q.2.res (t.node i).parent ≠ .unset)
-    (hQ4 : (∀ k, valid k = true) → Q.1 ≠ .unset) :
+    (hQ4 : DepsValid t valid i → Q.1 ≠ .unset) :
     CheckPost t e valid i c (afterPrev valid (t.node i) e i Q) := by
   unfold afterPrev
   have hskipQ : (Q.1 = .skip ∨ Q.1 = .true_) →
@@ -314,7 +329,7 @@ theorem afterPrev_post {t : Tree} (hwf : WF t) {e : Env} (valid : Comp → Bool)
     have hs : spec t e i = Res.ofBool (evalLocal (t.node i) e) := by
       rw [hQs hQne, hq1]; rfl
     obtain ⟨l1, l2, l3, l4⟩ := localStep_post hwf valid hQ1 hi hQpar hs
-    refine ⟨l1, l2, ?_, l4⟩
+    refine ⟨l1, l2, ?_, fun hall => l4 (hall _ (Deps.self i))⟩
     intro j hj
     have hji : j ≠ i := fun h => hj (h ▸ hun)
     show colGet (localStep valid (t.node i) e i Q.2).2.res j = colGet c.res j
@@ -341,7 +356,7 @@ theorem check_post {t : Tree} (hwf : WF t) (e : Env) (valid : Comp → Bool) :
             P.1 = (if (t.node i).parent ≠ 0 then spec t e (t.node i).parent else .true_) ∧
             ((t.node i).parent ≠ 0 → colGet P.2.res (t.node i).parent ≠ .unset)) ∧
           (∀ j, colGet c.res j ≠ .unset → colGet P.2.res j = colGet c.res j) ∧
-          ((∀ k, valid k = true) → P.1 ≠ .unset) := by
+          (DepsValid t valid i → P.1 ≠ .unset) := by
         unfold parentStep at hP
         by_cases h0 : (t.node i).parent = 0
         · simp only [h0, ne_eq, not_true_eq_false, if_false] at hP ⊢
@@ -352,7 +367,8 @@ theorem check_post {t : Tree} (hwf : WF t) (e : Env) (valid : Comp → Bool) :
           have := ih (t.node i).parent c (by omega) (by omega) hc
           rw [hP] at this
           obtain ⟨h1, h2, h3, h4⟩ := this
-          exact ⟨h1, fun hne => ⟨(h2 hne).1, fun _ => by rw [(h2 hne).2]; exact hne⟩, h3, h4⟩
+          exact ⟨h1, fun hne => ⟨(h2 hne).1, fun _ => by rw [(h2 hne).2]; exact hne⟩, h3,
+            fun hall => h4 (fun k hk => hall k (Deps.parent h0 hk))⟩
       obtain ⟨hP1, hP2, hP3, hP4⟩ := hPpost
       have hspec := spec_unfold hwf e hi
       have hskipP : (P.1 = .skip ∨ P.1 = .false_) →
@@ -383,7 +399,7 @@ theorem check_post {t : Tree} (hwf : WF t) (e : Env) (valid : Comp → Bool) :
             (Q.1 ≠ .unset →
               Q.1 = (match (t.node i).prev with | some q => spec t e q | none => .false_)) ∧
             (∀ j, colGet P.2.res j ≠ .unset → colGet Q.2.res j = colGet P.2.res j) ∧
-            ((∀ k, valid k = true) → Q.1 ≠ .unset) := by
+            (DepsValid t valid i → Q.1 ≠ .unset) := by
           unfold prevStep at hQ
           cases hpv : (t.node i).prev with
           | none =>
@@ -396,7 +412,8 @@ theorem check_post {t : Tree} (hwf : WF t) (e : Env) (valid : Comp → Bool) :
             have := ih q P.2 (by omega) (by omega) hP1
             rw [hQ] at this
             obtain ⟨h1, h2, h3, h4⟩ := this
-            exact ⟨h1, fun hne => (h2 hne).1, h3, h4⟩
+            exact ⟨h1, fun hne => (h2 hne).1, h3,
+              fun hall => h4 (fun k hk => hall k (Deps.prev hpv hk))⟩
         obtain ⟨hQ1, hQ2, hQ3, hQ4⟩ := hQpost
         apply afterPrev_post hwf valid hi hun Q hQ1 _ _ _ hQ4
         · intro hne
@@ -1065,10 +1082,32 @@ def specMerge (t : Tree) (e : Env) (dirs : List Nat) : List Nat → (Nat → Nat
 
 theorem mergeSets_nil (conf : Nat → Nat) : mergeSets conf [] = conf := rfl
 
+theorem deps_in_tree {t : Tree} (hwf : WF t) {i : Nat} {k : Comp} (h : Deps t i k) :
+    1 ≤ i → i < t.length → ∃ j, 1 ≤ j ∧ j < t.length ∧ (t.node j).comp = k := by
+  induction h with
+  | self i => intro h1 hi; exact ⟨i, h1, hi, rfl⟩
+  | @parent i k h0 _ ih =>
+    intro _ hi
+    have := hwf.parent_lt i hi h0
+    exact ih (Nat.pos_of_ne_zero h0) (by omega)
+  | @prev i q k hpv _ ih =>
+    intro _ hi
+    obtain ⟨hq1, hqi, _, _⟩ := hwf.prev_ok i hi q (Option.mem_def.mpr hpv)
+    exact ih hq1 (by omega)
+
+theorem depsValid_of_treeValid {t : Tree} (hwf : WF t) {valid : Comp → Bool} (hv : TreeValid t valid)
+    {i : Nat} (h1 : 1 ≤ i) (hi : i < t.length) : DepsValid t valid i := by
+  intro k hk
+  obtain ⟨j, hj1, hjn, hjk⟩ := deps_in_tree hwf hk h1 hi
+  rw [← hjk]; exact hv j hj1 hjn
+
+theorem depsValid_of_all {t : Tree} {valid : Comp → Bool} (hv : ∀ k, valid k = true) (i : Nat) :
+    DepsValid t valid i := fun k _ => hv k
+
 theorem patchLoop_post {t : Tree} (hwf : WF t) (e : Env) (valid : Comp → Bool) (dirs : List Nat) :
     ∀ (L : List Nat), (∀ i ∈ L, i < t.length) → ∀ (conf : Nat → Nat) (c : Cache), Coh t e c →
       Coh t e (patchLoop t e valid dirs L (conf, c)).2 ∧
-      ((∀ k, valid k = true) →
+      ((∀ i ∈ L, DepsValid t valid i) →
         (patchLoop t e valid dirs L (conf, c)).1 = specMerge t e dirs L conf) := by
   intro L
   induction L with
@@ -1082,7 +1121,7 @@ theorem patchLoop_post {t : Tree} (hwf : WF t) (e : Env) (valid : Comp → Bool)
     · simp only [hown, if_true]
       obtain ⟨h1, h2⟩ := ih hL' conf c hc
       refine ⟨h1, fun hv => ?_⟩
-      rw [h2 hv, specMerge]
+      rw [h2 (fun j hj => hv j (by simp [hj])), specMerge]
       have : ownSets dirs (t.node i) = [] := by simpa using hown
       rw [this, mergeSets_nil]; simp
     · have hown' : (ownSets dirs (t.node i)).isEmpty = false := by simpa using hown
@@ -1092,7 +1131,7 @@ theorem patchLoop_post {t : Tree} (hwf : WF t) (e : Env) (valid : Comp → Bool)
         (if (check t e valid t.length i c).1 = .true_ then mergeSets conf (ownSets dirs (t.node i))
           else conf) (check t e valid t.length i c).2 p1
       refine ⟨h1, fun hv => ?_⟩
-      rw [h2 hv, specMerge, (p2 (p4 hv)).1]
+      rw [h2 (fun j hj => hv j (by simp [hj])), specMerge, (p2 (p4 (hv i (by simp)))).1]
 
 theorem specMerge_append (t : Tree) (e : Env) (dirs : List Nat) :
     ∀ (L1 L2 : List Nat) (conf : Nat → Nat),
@@ -1134,13 +1173,28 @@ theorem specMerge_last (t : Tree) (e : Env) (dirs : List Nat) (d : Nat)
 theorem patch_post {t : Tree} (hwf : WF t) (e : Env) (valid : Comp → Bool) (dirs : List Nat)
     (c : Cache) (hc : Coh t e c) :
     Coh t e (patch t e valid dirs c).2 ∧
-    ((∀ k, valid k = true) →
+    (TreeValid t valid →
       (patch t e valid dirs c).1 =
         specMerge t e dirs ((List.range t.length).drop 1)
           (mergeSets (fun _ => 0) (ownSets dirs (t.node 0)))) := by
   unfold patch
-  exact patchLoop_post hwf e valid dirs _
-    (fun i hi => by have := List.mem_of_mem_drop hi; simpa using this) _ c hc
+  have hmem : ∀ i ∈ (List.range t.length).drop 1, 1 ≤ i ∧ i < t.length := by
+    intro i hi
+    have h1 : i < t.length := by simpa using List.mem_of_mem_drop hi
+    refine ⟨?_, h1⟩
+    rcases Nat.eq_zero_or_pos i with h | h
+    · subst h
+      exfalso
+      have hpw : (List.range t.length).Pairwise (· < ·) := List.pairwise_lt_range
+      have hsplit := List.take_append_drop 1 (List.range t.length)
+      rw [← hsplit, List.pairwise_append] at hpw
+      have h0 : 0 ∈ (List.range t.length).take 1 := by
+        rw [List.mem_iff_getElem]
+        exact ⟨0, by simp; omega, by simp⟩
+      exact absurd (hpw.2.2 0 h0 0 hi) (by omega)
+    · exact h
+  obtain ⟨h1, h2⟩ := patchLoop_post hwf e valid dirs _ (fun i hi => (hmem i hi).2) _ c hc
+  exact ⟨h1, fun hv => h2 (fun i hi => depsValid_of_treeValid hwf hv (hmem i hi).1 (hmem i hi).2)⟩
 
 theorem range_split {n i : Nat} (h1 : 1 ≤ i) (hi : i < n) :
     ∃ L1 L2, (List.range n).drop 1 = L1 ++ i :: L2 ∧ ∀ j ∈ L2, i < j ∧ j < n := by
@@ -1158,61 +1212,6 @@ theorem range_split {n i : Nat} (h1 : 1 ≤ i) (hi : i < n) :
   have h3 : j ∈ (List.range n).drop 1 := by rw [hL]; simp [hj]
   have h4 := List.mem_of_mem_drop h3
   exact ⟨h2, by simpa using h4⟩
-
-theorem step_coh {t : Tree} (hwf : WF t) {st : List Req} (h : AllCoh t st) (op : Op) :
-    AllCoh t (step true t st op).1 := by
-  cases op with
-  | check s i =>
-    simp only [step]
-    cases hs : st[s]? with
-    | none => exact h
-    | some rq =>
-      simp only
-      by_cases hi : i < t.length
-      · simp only [hi, if_true]
-        have hrq := h rq (List.mem_of_getElem? hs)
-        exact allCoh_set h s (check_post hwf rq.env rq.valid t.length i rq.cache hi hi hrq).1
-      · simp only [hi, if_false]; exact h
-  | setAttr s a v =>
-    simp only [step]
-    cases hs : st[s]? with
-    | none => exact h
-    | some rq =>
-      have hrq := h rq (List.mem_of_getElem? hs)
-      exact allCoh_set h s (resetItem_coh hwf a hrq
-        (fun j _ hj => evalLocal_set_other _ _ _ _ hj))
-  | resetAll s =>
-    simp only [step]
-    cases hs : st[s]? with
-    | none => exact h
-    | some rq => exact allCoh_set h s (coh_empty t _)
-  | setValid s v =>
-    simp only [step]
-    cases hs : st[s]? with
-    | none => exact h
-    | some rq => exact allCoh_set h s (h rq (List.mem_of_getElem? hs))
-  | newReq s sets v =>
-    simp only [step]
-    cases hs : st[s]? with
-    | none => exact h
-    | some rq => exact allCoh_set h s (coh_empty t _)
-  | spawn =>
-    simp only [step]
-    cases hs : st[0]? with
-    | none => exact h
-    | some rq =>
-      intro x hx
-      simp only [List.mem_append, List.mem_singleton] at hx
-      rcases hx with hx | hx
-      · exact h x hx
-      · subst hx; exact h _ (List.mem_of_getElem? hs)
-  | patch s dirs =>
-    simp only [step]
-    cases hs : st[s]? with
-    | none => exact h
-    | some rq =>
-      have hrq := h rq (List.mem_of_getElem? hs)
-      exact allCoh_set h s (patch_post hwf rq.env rq.valid dirs rq.cache hrq).1
 
 /-! ### host[:port] -/
 
@@ -1299,75 +1298,172 @@ theorem host_eq_iff (nd : Node) (e : Env) (hc : nd.comp = .host) (hs : nd.str.he
 /-- what an observation must be, by the language definition, for the state it was made in -/
 def ObsOk (t : Tree) (st : List Req) : Obs → Prop
   | .result s i r => i < t.length ∧ ∀ rq, st[s]? = some rq →
-      (r ≠ .unset → r = spec t rq.env i) ∧ ((∀ k, rq.valid k = true) → r = spec t rq.env i)
-  | .conf s dirs conf => ∀ rq, st[s]? = some rq → (∀ k, rq.valid k = true) →
+      (r ≠ .unset → r = spec t rq.env i) ∧ (DepsValid t rq.valid i → r = spec t rq.env i)
+  | .conf s dirs conf => ∀ rq, st[s]? = some rq → TreeValid t rq.valid →
       conf = specMerge t rq.env dirs ((List.range t.length).drop 1)
         (mergeSets (fun _ => 0) (ownSets dirs (t.node 0)))
   | .none => True
 
-theorem step_obs {t : Tree} (hwf : WF t) {st : List Req} (h : AllCoh t st) (op : Op) :
-    ObsOk t (step true t st op).1 (step true t st op).2 := by
+/-- every request whose cache has been reset since it was created (`s ∉ pend`) has a
+    coherent cache; `pend` = streams created by h2_init_stream() that still hold the copy of
+    the connection request's cache (taken for other attributes than their own) -/
+def SlotsOk (t : Tree) (st : List Req) (pend : List Nat) : Prop :=
+  ∀ s rq, st[s]? = some rq → s ∉ pend → Coh t rq.env rq.cache
+
+/-- the discipline of the server (h2.c + response.c): a stream gets its request and the full
+    reset of http_response_config() before any condition is evaluated on it.
+    `n` = number of requests so far, `pend` = streams still waiting for that reset. -/
+def Disciplined : Nat → List Nat → List Op → Prop
+  | _, _, [] => True
+  | n, pend, .spawn :: ops => Disciplined (n + 1) (n :: pend) ops
+  | n, pend, .check s _ :: ops => s ∉ pend ∧ Disciplined n pend ops
+  | n, pend, .patch s _ :: ops => s ∉ pend ∧ Disciplined n pend ops
+  | n, pend, .resetAll s :: ops => Disciplined n (pend.filter (· ≠ s)) ops
+  | n, pend, .newReq s _ _ :: ops => Disciplined n (pend.filter (· ≠ s)) ops
+  | n, pend, .setAttr _ _ _ :: ops => Disciplined n pend ops
+  | n, pend, .setValid _ _ :: ops => Disciplined n pend ops
+
+theorem slotsOk_set {t : Tree} {st : List Req} {pend : List Nat} (h : SlotsOk t st pend) (s : Nat)
+    (rq' : Req) (pend' : List Nat) (hsub : ∀ x, x ≠ s → x ∉ pend' → x ∉ pend)
+    (hrq : s ∉ pend' → Coh t rq'.env rq'.cache) : SlotsOk t (st.set s rq') pend' := by
+  intro s' rq hget hnp
+  by_cases hs : s' = s
+  · subst hs
+    rw [List.getElem?_set] at hget
+    simp only [if_true] at hget
+    by_cases hl : s' < st.length
+    · simp only [hl, if_true, Option.some.injEq] at hget
+      subst hget; exact hrq hnp
+    · simp [hl] at hget
+  · rw [List.getElem?_set_ne (fun e => hs e.symm)] at hget
+    exact h s' rq hget (hsub s' hs hnp)
+
+theorem slot_lt {st : List Req} {s : Nat} {rq : Req} (hs : st[s]? = some rq) : s < st.length := by
+  rcases Nat.lt_or_ge s st.length with hl | hl
+  · exact hl
+  · rw [List.getElem?_eq_none hl] at hs; cases hs
+
+/-- one disciplined step keeps the invariant and observes what the language defines -/
+theorem step_ok {t : Tree} (hwf : WF t) {st : List Req} {pend : List Nat} {n : Nat}
+    (hlen : st.length = n) (hn : 1 ≤ n) (h : SlotsOk t st pend) (op : Op) (ops : List Op)
+    (hd : Disciplined n pend (op :: ops)) :
+    ∃ n' pend', (step true t st op).1.length = n' ∧ 1 ≤ n' ∧ SlotsOk t (step true t st op).1 pend' ∧
+      Disciplined n' pend' ops ∧ ObsOk t (step true t st op).1 (step true t st op).2 := by
   cases op with
   | check s i =>
-    simp only [step]
+    obtain ⟨hsp, hd'⟩ := hd
     cases hs : st[s]? with
-    | none => exact trivial
+    | none =>
+      simp only [step, hs]
+      exact ⟨n, pend, hlen, hn, h, hd', trivial⟩
     | some rq =>
-      simp only
       by_cases hi : i < t.length
-      · simp only [hi, if_true]
-        have hrq := h rq (List.mem_of_getElem? hs)
-        obtain ⟨_, p2, _, p4⟩ := check_post hwf rq.env rq.valid t.length i rq.cache hi hi hrq
-        refine ⟨hi, ?_⟩
+      · simp only [step, hs, hi, if_true]
+        have hrq := h s rq hs hsp
+        obtain ⟨p1, p2, _, p4⟩ := check_post hwf rq.env rq.valid t.length i rq.cache hi hi hrq
+        refine ⟨n, pend, by simp [hlen], hn,
+          slotsOk_set h s _ pend (fun _ _ hx => hx) (fun _ => p1), hd', hi, ?_⟩
         intro rq' hrq'
-        have hslt : s < st.length := by
-          rcases Nat.lt_or_ge s st.length with hl | hl
-          · exact hl
-          · rw [List.getElem?_eq_none hl] at hs; cases hs
-        rw [List.getElem?_set_self hslt] at hrq'
+        rw [List.getElem?_set_self (slot_lt hs)] at hrq'
         cases hrq'
         exact ⟨fun hne => (p2 hne).1, fun hv => (p2 (p4 hv)).1⟩
-      · simp only [hi, if_false]; exact trivial
+      · simp only [step, hs, hi, if_false]
+        exact ⟨n, pend, hlen, hn, h, hd', trivial⟩
   | setAttr s a v =>
-    simp only [step]; cases st[s]? <;> exact trivial
-  | resetAll s =>
-    simp only [step]; cases st[s]? <;> exact trivial
-  | setValid s v =>
-    simp only [step]; cases st[s]? <;> exact trivial
-  | newReq s sets v =>
-    simp only [step]; cases st[s]? <;> exact trivial
-  | spawn =>
-    simp only [step]; cases st[0]? <;> exact trivial
-  | patch s dirs =>
-    simp only [step]
     cases hs : st[s]? with
-    | none => exact trivial
+    | none =>
+      simp only [step, hs]
+      exact ⟨n, pend, hlen, hn, h, hd, trivial⟩
     | some rq =>
-      simp only
-      have hrq := h rq (List.mem_of_getElem? hs)
-      obtain ⟨_, p2⟩ := patch_post hwf rq.env rq.valid dirs rq.cache hrq
+      simp only [step, hs]
+      exact ⟨n, pend, by simp [hlen], hn,
+        slotsOk_set h s _ pend (fun _ _ hx => hx) (fun hsp =>
+          resetItem_coh hwf a (h s rq hs hsp) (fun j _ hj => evalLocal_set_other _ _ _ _ hj)),
+        hd, trivial⟩
+  | resetAll s =>
+    have hsub : ∀ x, x ≠ s → x ∉ pend.filter (· ≠ s) → x ∉ pend := fun x hx hnp hm =>
+      hnp (List.mem_filter.mpr ⟨hm, by simpa using hx⟩)
+    cases hs : st[s]? with
+    | none =>
+      simp only [step, hs]
+      refine ⟨n, pend.filter (· ≠ s), hlen, hn, ?_, hd, trivial⟩
+      intro s' rq hget hnp
+      have hss : s' ≠ s := fun e => by subst e; rw [hs] at hget; cases hget
+      exact h s' rq hget (hsub s' hss hnp)
+    | some rq =>
+      simp only [step, hs]
+      exact ⟨n, pend.filter (· ≠ s), by simp [hlen], hn,
+        slotsOk_set h s _ _ hsub (fun _ => coh_empty t _), hd, trivial⟩
+  | setValid s v =>
+    cases hs : st[s]? with
+    | none =>
+      simp only [step, hs]
+      exact ⟨n, pend, hlen, hn, h, hd, trivial⟩
+    | some rq =>
+      simp only [step, hs]
+      exact ⟨n, pend, by simp [hlen], hn,
+        slotsOk_set h s _ pend (fun _ _ hx => hx) (fun hsp => h s rq hs hsp), hd, trivial⟩
+  | newReq s sets v =>
+    have hsub : ∀ x, x ≠ s → x ∉ pend.filter (· ≠ s) → x ∉ pend := fun x hx hnp hm =>
+      hnp (List.mem_filter.mpr ⟨hm, by simpa using hx⟩)
+    cases hs : st[s]? with
+    | none =>
+      simp only [step, hs]
+      refine ⟨n, pend.filter (· ≠ s), hlen, hn, ?_, hd, trivial⟩
+      intro s' rq hget hnp
+      have hss : s' ≠ s := fun e => by subst e; rw [hs] at hget; cases hget
+      exact h s' rq hget (hsub s' hss hnp)
+    | some rq =>
+      simp only [step, hs]
+      exact ⟨n, pend.filter (· ≠ s), by simp [hlen], hn,
+        slotsOk_set h s _ _ hsub (fun _ => coh_empty t _), hd, trivial⟩
+  | spawn =>
+    have h0 : ∃ rq, st[0]? = some rq := by
+      cases st with
+      | nil => simp at hlen; omega
+      | cons x xs => exact ⟨x, rfl⟩
+    obtain ⟨rq0, hrq0⟩ := h0
+    simp only [step, hrq0]
+    refine ⟨n + 1, n :: pend, by simp [hlen], by omega, ?_, hd, trivial⟩
+    intro s' rq hget hnp
+    have hne : s' ≠ n := fun e => hnp (by simp [e])
+    have hnp' : s' ∉ pend := fun hm => hnp (by simp [hm])
+    by_cases hl : s' < st.length
+    · rw [List.getElem?_append_left hl] at hget
+      exact h s' rq hget hnp'
+    · rw [List.getElem?_eq_none (by simp; omega)] at hget
+      cases hget
+  | patch s dirs =>
+    obtain ⟨hsp, hd'⟩ := hd
+    cases hs : st[s]? with
+    | none =>
+      simp only [step, hs]
+      exact ⟨n, pend, hlen, hn, h, hd', trivial⟩
+    | some rq =>
+      simp only [step, hs]
+      have hrq := h s rq hs hsp
+      obtain ⟨p1, p2⟩ := patch_post hwf rq.env rq.valid dirs rq.cache hrq
+      refine ⟨n, pend, by simp [hlen], hn,
+        slotsOk_set h s _ pend (fun _ _ hx => hx) (fun _ => p1), hd', ?_⟩
       intro rq' hrq' hv
-      have hslt : s < st.length := by
-        rcases Nat.lt_or_ge s st.length with hl | hl
-        · exact hl
-        · rw [List.getElem?_eq_none hl] at hs; cases hs
-      rw [List.getElem?_set_self hslt] at hrq'
+      rw [List.getElem?_set_self (slot_lt hs)] at hrq'
       cases hrq'
       exact p2 hv
 
 theorem run_ok {t : Tree} (hwf : WF t) :
-    ∀ (ops : List Op) (st : List Req), AllCoh t st →
-      ∀ so ∈ run true t st ops, AllCoh t so.1 ∧ ObsOk t so.1 so.2 := by
+    ∀ (ops : List Op) (st : List Req) (pend : List Nat) (n : Nat), st.length = n → 1 ≤ n →
+      SlotsOk t st pend → Disciplined n pend ops →
+      ∀ so ∈ run true t st ops, ObsOk t so.1 so.2 := by
   intro ops
   induction ops with
-  | nil => intro st _ so hso; simp [run] at hso
+  | nil => intro st _ _ _ _ _ _ so hso; simp [run] at hso
   | cons op ops ih =>
-    intro st h so hso
+    intro st pend n hlen hn h hd so hso
+    obtain ⟨n', pend', hlen', hn', h', hd', hobs⟩ := step_ok hwf hlen hn h op ops hd
     simp only [run, List.mem_cons] at hso
     rcases hso with hso | hso
-    · subst hso
-      exact ⟨step_coh hwf h op, step_obs hwf h op⟩
-    · exact ih _ (step_coh hwf h op) so hso
+    · subst hso; exact hobs
+    · exact ih _ pend' n' hlen' hn' h' hd' so hso
 
 /-! ### evaluation order -/
 
@@ -1413,5 +1509,120 @@ def lastResult (l : List (List Req × Obs)) : Option Res :=
   | some (_, .result _ _ r) => some r
   | _ => none
 end Ex
+
+
+/-! ### results taken over by a stream -/
+
+/-- `check` looks at the attributes only through the comparisons of fields that are available -/
+theorem check_env_agree (t : Tree) (e e' : Env) (valid : Comp → Bool)
+    (h : ∀ i, valid (t.node i).comp = true → evalLocal (t.node i) e' = evalLocal (t.node i) e) :
+    ∀ f i c, check t e' valid f i c = check t e valid f i c := by
+  intro f
+  induction f with
+  | zero => intro i c; rfl
+  | succ f ih =>
+    intro i c
+    have hl : ∀ c', localStep valid (t.node i) e' i c' = localStep valid (t.node i) e i c' := by
+      intro c'
+      unfold localStep
+      by_cases hv : valid (t.node i).comp = true
+      · simp only [hv, Bool.not_true, Bool.false_eq_true, if_false, h i hv]
+      · have hv' : valid (t.node i).comp = false := by simpa using hv
+        simp only [hv', Bool.not_false, if_true]
+    have hfun : check t e' valid f = check t e valid f := by
+      funext j c'; exact ih j c'
+    rw [check, check, hfun]
+    simp only [afterPrev, hl]
+
+theorem checkAll_env_agree (t : Tree) (e e' : Env) (valid : Comp → Bool)
+    (h : ∀ i, valid (t.node i).comp = true → evalLocal (t.node i) e' = evalLocal (t.node i) e) :
+    ∀ ks c, checkAll t e' valid ks c = checkAll t e valid ks c := by
+  intro ks
+  induction ks with
+  | nil => intro c; rfl
+  | cons k ks ih =>
+    intro c
+    simp only [checkAll, List.foldl_cons] at ih ⊢
+    rw [check_env_agree t e e' valid h, ih]
+
+/-- conditions on the listening socket or the peer address compare the same for two requests
+    of one connection -/
+theorem evalLocal_conn_level (nd : Node) (e e' : Env) (hs : e'.socket = e.socket)
+    (ha : e'.addr = e.addr) (hi : e'.ipStr = e.ipStr)
+    (hc : nd.comp = .socket ∨ nd.comp = .remoteIp) : evalLocal nd e' = evalLocal nd e := by
+  have hattr : attr nd e' = attr nd e := by
+    rcases hc with hc | hc <;> simp [attr, hc, hs, hi]
+  unfold evalLocal eqLike
+  simp only [hattr, ha]
+
+
+/-! ### last contributing block wins -/
+
+/-- `x` is the value the language gives directive `d` (of the module owning `dirs`) for
+    attributes `e`: the last assignment of the last contributing block in context order
+    (context 0 = global scope always contributes), the built-in default 0 if there is none -/
+def LastWins (t : Tree) (e : Env) (dirs : List Nat) (d x : Nat) : Prop :=
+  (∀ i v, i < t.length → (i = 0 ∨ Applies t e i) →
+    lastSet (ownSets dirs (t.node i)) d = some v →
+    (∀ j, i < j → j < t.length → Applies t e j → lastSet (ownSets dirs (t.node j)) d = none) →
+    x = v) ∧
+  ((∀ i, i < t.length → (i = 0 ∨ Applies t e i) → lastSet (ownSets dirs (t.node i)) d = none) →
+    x = 0)
+
+theorem specMerge_lastWins {t : Tree} (hwf : WF t) (e : Env) (dirs : List Nat) (d : Nat)
+    (hn : 0 < t.length) :
+    LastWins t e dirs d
+      (specMerge t e dirs ((List.range t.length).drop 1)
+        (mergeSets (fun _ => 0) (ownSets dirs (t.node 0))) d) := by
+  have hnoContrib : ∀ j, j < t.length → 1 ≤ j →
+      (Applies t e j → lastSet (ownSets dirs (t.node j)) d = none) →
+      ∀ v', ¬ Contrib t e dirs d j v' := by
+    intro j hj _ h v' hcv
+    have := h ((spec_true_iff_applies hwf e j hj).mp hcv.1)
+    rw [hcv.2] at this; cases this
+  have hmem : ∀ j ∈ (List.range t.length).drop 1, 1 ≤ j ∧ j < t.length := by
+    intro j hj
+    have h1 : j < t.length := by simpa using List.mem_of_mem_drop hj
+    refine ⟨?_, h1⟩
+    rcases Nat.eq_zero_or_pos j with h | h
+    · subst h
+      exfalso
+      have hpw : (List.range t.length).Pairwise (· < ·) := List.pairwise_lt_range
+      have hsplit := List.take_append_drop 1 (List.range t.length)
+      rw [← hsplit, List.pairwise_append] at hpw
+      have h0 : 0 ∈ (List.range t.length).take 1 := by
+        rw [List.mem_iff_getElem]
+        exact ⟨0, by simp; omega, by simp⟩
+      exact absurd (hpw.2.2 0 h0 0 hj) (by omega)
+    · exact h
+  constructor
+  · intro i v hi hap hset hlater
+    rcases Nat.eq_zero_or_pos i with h0 | hpos
+    · subst h0
+      rw [specMerge_none t e dirs d _ _ (fun j hj v' =>
+        hnoContrib j (hmem j hj).2 (hmem j hj).1
+          (fun ha => hlater j (by have := (hmem j hj).1; omega) (hmem j hj).2 ha) v')]
+      rw [mergeSets_eq, hset]; rfl
+    · have ha : Applies t e i := by
+        rcases hap with h | h
+        · omega
+        · exact h
+      obtain ⟨L1, L2, hL, hL2⟩ := range_split hpos hi
+      rw [hL]
+      exact specMerge_last t e dirs d L1 L2 i v _
+        ⟨(spec_true_iff_applies hwf e i hi).mpr ha, hset⟩
+        (fun j hj v' => hnoContrib j (hL2 j hj).2 (by have := (hL2 j hj).1; omega)
+          (fun ha' => hlater j (hL2 j hj).1 (hL2 j hj).2 ha') v')
+  · intro hnone
+    rw [specMerge_none t e dirs d _ _ (fun j hj v' =>
+      hnoContrib j (hmem j hj).2 (hmem j hj).1 (fun ha => hnone j (hmem j hj).2 (Or.inr ha)) v')]
+    rw [mergeSets_eq, hnone 0 hn (Or.inl rfl)]; rfl
+
+/-- what a `$HTTP["remoteip"] == "addr[/bits]"` block computes -/
+theorem evalLocal_remoteip_eq (nd : Node) (e : Env) (a : SockAddr) (bits : Nat)
+    (hc : nd.comp = .remoteIp) (ho : nd.cond = .eq) (hs : nd.str.head? ≠ some slash)
+    (hn : nd.cidr = some (a, bits)) :
+    evalLocal nd e = if bits ≠ 0 then a.addrEqBits e.addr bits else a.addrEq e.addr := by
+  simp [evalLocal, eqLike, hc, ho, hs, hn]
 
 end LtVerif.Cond
